@@ -4,4 +4,7 @@ cd "$(dirname "$0")" || exit 2
 . ./env.sh
 mkdir -p .work/gocache evidence replays
 (cd mc && go build -o ../.work/bclmc ./cmd/bclmc) || exit 1
+# warm the caches of the instrumented and the race-detector builds (both optional here; run.sh rebuilds)
+.work/bclmc instrument >/dev/null 2>&1 && (cd mc && go build -overlay ../.work/overlay/overlay.json -o ../.work/bclmc-e1 ./cmd/bclmc) >/dev/null 2>&1
+(cd mc && go build -race -o ../.work/racepass ./cmd/racepass) >/dev/null 2>&1
 echo "setup ok"
